@@ -21,7 +21,7 @@ import (
 type C15RacePlan struct {
 	Engine       string `json:"engine"` // legacy | exp
 	HonestLen    int    `json:"honestLen"`
-	Nodes        int    `json:"nodes"`        // legacy: 2-4 nodes delivering concurrently; exp: outbound + inbound
+	Nodes        int    `json:"nodes"` // legacy: 2-4 nodes delivering concurrently; exp: outbound + inbound
 	Cap          int    `json:"cap"`
 	Readers      int    `json:"readers"`      // HTTP reader goroutines
 	PeerEndpoint bool   `json:"peerEndpoint"` // readers also call GET /network/peer and /network/peer/count (open finding when true)
